@@ -460,6 +460,14 @@ type vMutC03 struct {
 	Where string `json:"region,omitempty"` // measured region label
 }
 
+// vTypeNameC03 names a file type in class labels ("pack" instead of restic's "data").
+func vTypeNameC03(t backend.FileType) string {
+	if t == backend.PackFile {
+		return "pack"
+	}
+	return t.String()
+}
+
 func vFileTypeC03(s string) backend.FileType {
 	for _, t := range []backend.FileType{backend.PackFile, backend.IndexFile, backend.SnapshotFile, backend.KeyFile, backend.ConfigFile, backend.LockFile} {
 		if t.String() == s {
@@ -686,9 +694,9 @@ func (r *vRepoC03) vDrawMutC03(t *rapid.T, packsOnly bool) vMutC03 {
 	case "extend":
 		m.N = rapid.IntRange(1, 48).Draw(t, "extend")
 		m.Val = byte(rapid.IntRange(0, 255).Draw(t, "fill"))
-		m.Where = ft.String() + "/append"
+		m.Where = vTypeNameC03(ft) + "/append"
 	default:
-		m.Where = ft.String() + "/whole"
+		m.Where = vTypeNameC03(ft) + "/whole"
 	}
 	return m
 }
